@@ -270,7 +270,17 @@ class Stacker(Transformer):
 
     def _unstack_to_dataset_components(self, data: DataArray) -> DataSet:
         feature_name = self.feature_name
+        # to_unstacked_dataset squeezes every dimension of length one (e.g. a single
+        # mode or bootstrap member); remember them to restore them afterwards
+        size_one = {
+            d: data.coords[d].values
+            for d in data.dims
+            if d != feature_name and data.sizes[d] == 1 and d in data.coords
+        }
         ds: DataSet = data.to_unstacked_dataset(feature_name, "variable").unstack()
+        for d, values in size_one.items():
+            if d not in ds.dims:
+                ds = ds.drop_vars(d, errors="ignore").expand_dims({d: values})
         ds = self._reorder_dims(ds)
         return ds
 
